@@ -780,6 +780,31 @@ structure Cfg where
   strict : Bool := false
   strictUD : Bool := false
   work : Option FTag := none
+  /-- floating-point reading: constants that take part in a fold must be representable in the
+  working dtype -/
+  fp : Bool := false
+
+/-- every value of tag `t` is a value of the working dtype `w` -/
+def FTag.within (t w : FTag) : Bool :=
+  match t with
+  | .f16 => true
+  | .f32 => w != .f16
+  | .py | .f64 => w == .py || w == .f64
+
+/-- the constant is exactly representable in the working dtype (integers: up to 2^11, the
+integer range of binary16) -/
+def repOK (work : Option FTag) : CVal → Bool
+  | .bool _ => true
+  | .int n => n.natAbs ≤ 2048
+  | .flt t _ => match work with
+    | some w => t.within w
+    | none => false
+  | _ => false
+
+def repGuard (cfg : Cfg) (v : CVal) : Bool := !cfg.fp || repOK cfg.work v
+
+def guardRep (cfg : Cfg) (v : CVal) : M Unit :=
+  if repGuard cfg v then pure () else throw (.inexact "constant outside the working format")
 
 def keyGt (cfg : Cfg) (x y : Expr) : M Bool :=
   match cfg.ord x y with
@@ -812,6 +837,8 @@ def foldArith (cfg : Cfg) (op : AOp) (x y : Expr) : M (Option Expr) :=
       | some a, some b => do
         let r ← pyArith op a b
         guardSameType cfg xl yl
+        guardRep cfg xv
+        guardRep cfg yv
         guardExact cfg "arith" r.ext (match a.ext, b.ext with | .fin p, .fin q => some (op.onRat p q) | _, _ => none)
         return some (← mkConst r.toCVal xl)
       | _, _ => throw (.unsupported "complex fold")
@@ -1108,6 +1135,8 @@ def compareFold (cfg : Cfg) (r : Rel) (x y : Expr) : M (Option Bool) :=
         match xv.pnum?, yv.pnum? with
         | some a, some b => do
           let res ← pyRel r a b
+          guardRep cfg xv
+          guardRep cfg yv
           if cfg.strict && (a.ext == .nan || b.ext == .nan) then throw (.inexact "nan")
           if cfg.strict then
             -- the comparison must be the comparison of the exact values (casts inside NumPy's
@@ -1186,6 +1215,7 @@ def rSelect (cfg : Cfg) (cond x y : Expr) : M (Option Expr) :=
 /-- `_eval(like, "sqrt"|"square", value)` -/
 def evalFn (cfg : Cfg) (isSqrt : Bool) (like : Expr) (p : PNum) : M (Option Expr) := do
   let typ ← getType like
+  guardRep cfg p.toCVal
   let viaDtype : M (Option (Option Expr)) :=
     if typ.bits.isSome && typ.kind != .other then do
       match (← asDtype typ) with
